@@ -39,7 +39,7 @@ Proof.
   - reflexivity.
   - reflexivity.
   - assert (En : K.nonempty (TC5.block_secs ex_mb) = [(0, ex_saddr, 17); (6, 0x100000, 0x2000)]) by (vm_compute; reflexivity).
-    unfold K.fuel_ok. rewrite En. split.
+    unfold K.fuel_ok, K.mapped. rewrite En. cbn [filter N.ltb N.compare negb]. split.
     + repeat constructor; cbv [K.sec_fuel];
         match goal with |- (N.to_nat ?x < _)%nat => let v := eval vm_compute in x in replace x with v by (vm_compute; reflexivity) end; lia.
     + match goal with |- (N.to_nat ?x < _)%nat => let v := eval vm_compute in x in replace x with v by (vm_compute; reflexivity) end; lia.
